@@ -146,6 +146,14 @@ def oracle(c, r):
     if not o["pure"]: why.append("arguments modified")
     if o["add_l"] != o["add_r"]: why.append("not additive")
     if o["ser"] != ["dict", "json", "txt"]: why.append("serializer: %s" % o["ser"])
+    if "sres" in o:      # the script session, recomputed from the definition: set = overwrite, update = add, unknown vertex = refused without effect
+        cur = list(c["s"]); exp = []
+        for op in c["sops"]:
+            if op[1] >= n: exp.append("err")
+            else:
+                cur[op[1]] = op[2] if op[0] == 0 else cur[op[1]] + op[2]; exp.append("ok")
+            exp.append(list(cur))
+        if o["sres"] != exp: why.append("script set/update history %s, by definition %s" % (o["sres"], exp))
     if "moves" in o and o["moves"] != exact: why.append("moves one at a time give %s" % o["moves"])
     keep = [v for v in range(n) if v != c["q"]]
     if o["R"] != [[L[a][b] for b in keep] for a in keep]: why.append("reduced matrix wrong")
